@@ -363,6 +363,9 @@ func (eng) Generate(mode, tier string, r *hx.Rand) []*hx.Case {
 		n = 1200
 	}
 	var out []*hx.Case
+	// consecutive seeds of hx.Rand are shifted copies of one sequence: mix two outputs so that seeds give unrelated case sets
+	a, b := r.U64(), r.U64()
+	r = hx.NewRand(a*0x2545F4914F6CDD1D ^ (b >> 11) ^ (b << 29))
 	for i := 0; i < n; i++ {
 		g := &gen{r: r.Fork(), ndb: 1, kgs: 4}
 		params := map[string]any{"mode": mode, "mem": hx.Pick(g.r, []int{45, 60, 60, 90}), "wal": hx.Pick(g.r, []int{1000, 1000, 70}), "tfs": hx.Pick(g.r, []int{60, 80, 200})}
